@@ -21,8 +21,8 @@ pub fn def() -> PropDef {
     panic_policy: PanicPolicy::Count,
     rule: "random ASCII source trees with consistent leaf maps (depth <=3 quick / <=5 thorough), replacement sets biased to deleting/inserting line breaks at column 0 and >0, overlaps, positions beyond the end; non-trivial = a composite (Concat >=2 children or Replace with >=1 op) and >=2 chunks whose reported position was compared with the scanned position on a line > 1 or column > 0; distinct = spec fingerprint",
     cases: |t| match t {
-      Tier::Quick => 40_000,
-      Tier::Thorough => 800_000,
+      Tier::Quick => 200_000,
+      Tier::Thorough => 3_000_000,
     },
   }
 }
